@@ -533,8 +533,44 @@ func TestSocketDeclaredLength(t *testing.T) {
 				}
 			}
 		}
+		// bodies over 1 MiB are read incrementally: the same must hold around that boundary
+		for _, declared := range []int{1 << 20, 1<<20 + 1, 1<<20 + 4096, 3 << 20} {
+			for _, missing := range []int{1, 100, declared / 2} {
+				for _, ending := range []string{"close", "half-close"} {
+					if !mine() {
+						continue
+					}
+					actual := declared - missing
+					canon := fmt.Sprintf("%s frame declaring %d bytes, %d sent, then %s", kind, declared, actual, ending)
+					ev.S.Begin("socket-declared-length", canon)
+					serial.Lock()
+					ep.svc.Take()
+					body := echo.Gen(uint32(declared+missing), actual)
+					c, err := dialStream(ep)
+					if err != nil {
+						serial.Unlock()
+						t.Fatalf("dial: %v", err)
+					}
+					c.Write(append(wire.SocketHeader(declared, 1, false), body...))
+					if ending == "close" {
+						c.Close()
+					} else if cw, ok := c.(interface{ CloseWrite() error }); ok {
+						cw.CloseWrite()
+					}
+					seen := waitSeen(ep.svc, 60*time.Millisecond)
+					c.Close()
+					problem := ""
+					if len(seen) > 0 {
+						problem = fmt.Sprintf("the service was handed %d bytes although only %d of the declared %d were sent", len(seen[0]), actual, declared)
+					}
+					serial.Unlock()
+					ev.S.Case("socket-declared-length", canon, true, "declared="+kind+"/large/"+ending)
+					report(t, "socket-declared-length", "TestSocketDeclaredLength", canon, problem)
+				}
+			}
+		}
 		// declared == actual is delivered exactly
-		for _, n := range []int{0, 1, 12, 1012, 1013, 70000} {
+		for _, n := range []int{0, 1, 12, 1012, 1013, 70000, 1 << 20, 1<<20 + 1, 3 << 20} {
 			canon := fmt.Sprintf("%s hand-made frame declaring and carrying %d bytes", kind, n)
 			ev.S.Begin("socket-declared-length", canon)
 			serial.Lock()
@@ -848,6 +884,17 @@ func TestClientSideFrames(t *testing.T) {
 		}
 		return append(wire.SocketHeader(len(body)+50, index, false), body...)
 	}})
+	for _, declared := range []int{1<<20 + 1, 2 << 20} {
+		for _, missing := range []int{1, 100, 1 << 19} {
+			declared, missing := declared, missing
+			variants = append(variants, variant{fmt.Sprintf("%d bytes declared, %d missing, then close", declared, missing), func(kind string, index int, body []byte) []byte {
+				if kind != "tcp" && kind != "unix" || len(body) != 20 {
+					return nil
+				}
+				return append(wire.SocketHeader(declared, index, false), echo.Gen(5, declared-missing)...)
+			}})
+		}
+	}
 	shard, nshards := ev.S.Shard, ev.S.NShards
 	k := 0
 	for _, kind := range []string{"tcp", "unix", "udp"} {
@@ -870,6 +917,9 @@ func TestClientSideFrames(t *testing.T) {
 				}
 				client := core.NewClient(p.URL)
 				client.Timeout = 250 * time.Millisecond
+				if strings.Contains(v.name, "missing") {
+					client.Timeout = 3 * time.Second
+				}
 				type res struct {
 					b   []byte
 					err error
@@ -887,6 +937,9 @@ func TestClientSideFrames(t *testing.T) {
 					p.Raw(v.make(kind, f.Index, body))
 					if strings.Contains(v.name, "then close") {
 						time.Sleep(5 * time.Millisecond)
+						if strings.Contains(v.name, "missing") {
+							time.Sleep(60 * time.Millisecond) // let the client take the megabytes before the end of stream
+						}
 						p.Drop()
 					}
 					select {
